@@ -43,9 +43,10 @@ CLAIMED = {
         'least positive number of steps of (operation i, then operation j) leading from d back to d, None out of range or where the walk leaves the defined operations. '
         'Orbit indices separate orbits (equal index only on one (i,i+1)-orbit; index ranges of different i disjoint). The trait DSym with the laws v constant on orbits and '
         'm = r*v for whatever n is the least return time, proved for both implementors; the conversions as_dset, as_dsym, as_partial_dsym (real bodies): same operations, '
-        'v = 1 resp. the same v and the same m.',
+        'v = 1 resp. the same v and the same m. is_loopless (no operation fixes a chamber), orientations_match, is_weakly_oriented (every edge passes the test against '
+        'the vector partial_orientation returns) and is_oriented (their conjunction) are verified bodies.',
    note='Trusted: Verus+Z3, vstd, <[T]>::fill spec, derived Clone; walk(e,[i,j]) by its std semantics. Not decided by contracts (bounded stand-in): '
-        'Traversal/orbits/orbit_reps/connected/oriented predicates (stateful iterator over BTreeMap/VecDeque/HashSet), PartialDSet::grow; termination of orbit loops; '
+        'Traversal/orbits/orbit_reps/is_connected/partial_orientation (stateful iterator over BTreeMap/VecDeque/HashSet; is_weakly_oriented is proved relative to the vector partial_orientation returns), PartialDSet::grow; termination of orbit loops; '
         'the lift of the return-time statement from orbit representatives to every chamber is stated as spec-level lemmas only.',
    ref='5 C02', technique=TECH),
  'C01': dict(
@@ -99,8 +100,10 @@ CLAIMED = {
         'projection d -> (d-1) % size + 1 commutes with every operation; fibres have exactly nr_sheets elements (lemma); oriented_cover discharges the '
         'sheet-map conditions for its xor map whatever the orientation routine returns. Degrees: orbit_reps_2d lists a representative of every orbit, build_sym_using_ms / '
         'build_sym_using_vs write the prescribed value on every orbit (orbit indices separate orbits: collect_orbits), so that in cover, oriented_cover and as_partial_dsym '
-        '(all real bodies) chamber d gets the degree r * (m_base(pi d) / r), which is m_base(pi d) whenever the orbit length r in the cover divides it.',
-   note='Trusted: Verus+Z3, vstd; is_oriented and partial_orientation (Traversal-based) assumed: the contract holds whatever they return. Precondition v * size <= usize::MAX. '
+        '(all real bodies) chamber d gets the degree r * (m_base(pi d) / r), which is m_base(pi d) whenever the orbit length r in the cover divides it. '
+        'cover_for_table and trace_word (real bodies, against the imported contracts of the coset-table unit and of cover): for a valid table and facet words that are words in its '
+        'generators and pairwise undo each other on its rows, the sheet map "trace the facet word from the sheet" meets the preconditions of cover, so the result is a cover with one sheet per row.',
+   note='Trusted: Verus+Z3, vstd; partial_orientation (Traversal-based) assumed to return some sign vector: the contract holds whatever it returns. Precondition v * size <= usize::MAX. '
         'Not decided by contracts: that r always divides the base degree (holds for covers from coset tables of the fundamental group; depends on C09), connectedness, '
         'orientedness of the oriented cover, covers()/cover_for_table()/finite_universal_cover (depend on C09/C11/C12), the count of covers per subgroup class (bounded stand-in).',
    ref='5 C05', technique=TECH),
